@@ -455,15 +455,90 @@ func genConstExpr(w *World, res *CheckResult) {
 			}
 			return false
 		}
-		e.Run(fn, []*Value{cv, slot}, st, w.Contracts["optimizer.constExpr.Exit"])
+		constT := types.NewPointer(w.namedType("ast", "ConstantNode"))
+		for _, o := range e.Run(fn, []*Value{cv, slot}, st, w.Contracts["optimizer.constExpr.Exit"]) {
+			if o.Panic != nil || lt.name != "int" {
+				continue
+			}
+			cur := o.St.Load(slot.One(), SVal)
+			if o.St.Simp(Eq(cur, lay.ptrVal("FunctionNode", fnode))) == True {
+				continue
+			}
+			// a constant node never holds nil (the compiler's constant pool cannot take it: makeConstant requires i != nil)
+			val := o.St.Load(LocField(VSel("ptr_of", cur), lay.off("ConstantNode", "Value")), SVal)
+			e.AddVC("optimizer.constExpr/post:nil-result", "post", fn.String(), o.St, And(dynTypeTest(cur, constT), Eq(val, VNil)),
+				"a call that returns nil is not replaced by a ConstantNode holding nil")
+		}
 		if calls == 0 {
 			res.Obls = append(res.Obls, missingObl(cell+"/post:arg-as-compiled", "no path of constExpr.Exit calls the function"))
 		}
 		for _, o := range e.obls {
-			if strings.HasPrefix(o.Name, cell+"/") {
+			if strings.HasPrefix(o.Name, cell+"/") || (lt.name == "int" && strings.HasPrefix(o.Name, "optimizer.constExpr/")) {
 				o.Meta = map[string]string{"type": lt.name}
 				res.Obls = append(res.Obls, o)
 			}
+		}
+	}
+}
+
+// genFoldArray: fold.Exit on an array literal. The constant that replaces it
+// must have the dynamic type the unoptimized program builds with OpArray,
+// []interface{} (a []int or []string constant compares unequal to the same
+// elements held in a []interface{}, and equal to a []int the literal is not).
+func genFoldArray(w *World, res *CheckResult) {
+	lay := astLayout{w}
+	fn := w.Func("optimizer.fold.Exit")
+	if fn == nil {
+		return
+	}
+	cell := "optimizer.fold[array]"
+	e := NewExec(w)
+	e.SafeMode = func(f *ssa.Function) string { return "panics" }
+	st := NewState()
+	e.paramMode = true
+	fv := e.havocValue(st, fn.Params[0].Type(), "fold")
+	slot := e.havocValue(st, fn.Params[1].Type(), "node")
+	e.paramMode = false
+	st.Assume(Not(Eq(fv.One(), NilLoc)))
+	st.Assume(Not(Eq(slot.One(), NilLoc)))
+	an, els := FreshPre(st, "array"), FreshPre(st, "elems")
+	objs := []*Term{an, els, slot.One(), fv.One()}
+	for i := range objs {
+		for j := i + 1; j < len(objs); j++ {
+			AssumeDistinctObjs(st, objs[i], objs[j])
+		}
+	}
+	n := Fresh("nelems", SBV(64))
+	st.Assume(BVCmp("bvsgt", n, BV64(0)))
+	st.Assume(BVCmp("bvslt", n, BV64(1<<30)))
+	old := lay.ptrVal("ArrayNode", an)
+	st.Store(slot.One(), old)
+	no := lay.off("ArrayNode", "Nodes")
+	st.Store(LocField(an, no), els)
+	st.Store(LocField(an, no+1), n)
+	st.Store(LocField(an, no+2), n)
+	constT := types.NewPointer(w.namedType("ast", "ConstantNode"))
+	want := types.NewSlice(types.NewInterfaceType(nil, nil))
+	rewrites := 0
+	for _, o := range e.Run(fn, []*Value{fv, slot}, st, nil) {
+		if o.Panic != nil {
+			continue // type assertions inside the cut element loops: not decided
+		}
+		cur := o.St.Load(slot.One(), SVal)
+		if o.St.Simp(Eq(cur, old)) == True {
+			continue
+		}
+		rewrites++
+		cv := o.St.Load(LocField(VSel("ptr_of", cur), lay.off("ConstantNode", "Value")), SVal)
+		e.AddVC(cell+"/post:array-type", "post", fn.String(), o.St, Not(And(dynTypeTest(cur, constT), dynTypeTest(cv, want))),
+			"a folded array literal is a constant of the type OpArray builds at run time: []interface{}")
+	}
+	if rewrites == 0 {
+		res.Obls = append(res.Obls, missingObl(cell+"/post:array-type", "no path of fold.Exit folds an array literal"))
+	}
+	for _, o := range e.obls {
+		if strings.HasPrefix(o.Name, cell+"/") {
+			res.Obls = append(res.Obls, o)
 		}
 	}
 }
